@@ -6,7 +6,7 @@
     relationships on a slide, image addition on a slide as picture / placeholder
     picture / poster frame or icon, save-and-reopen), run from any state satisfying the
     invariant; there is no bound on its length or on the number of images or slides. *)
-From Coq Require Import QArith Qabs.
+From Coq Require Import QArith Qabs Qround.
 From V.lib Require Import Prelude.
 From V.model Require Import PackUri Image.
 From V.proofs Require Import Image_proofs.
@@ -85,7 +85,7 @@ Print Assumptions C15_bytes.
 Theorem C15_new_part : forall H ps im ps' p,
   get_or_add H ps im = Ok (ps', p) -> find_by_digest H (H (i_blob im)) ps = None ->
   p_blob p = i_blob im /\ ~ In (p_name p) (map p_name ps) /\
-  exists e, image_ext (i_meta im) = Ok e /\ ext (p_name p) = e /\
+  exists e, image_ext (i_blob im) (i_meta im) = Ok e /\ ext (p_name p) = e /\
             assoc e image_content_types = Some (p_ct p).
 Proof. exact new_part_type. Qed.
 Print Assumptions C15_new_part.
@@ -124,25 +124,39 @@ Theorem C15_no_unmodelled : n_unmodelled = 0%nat.
 Proof. exact (eq_refl 0%nat). Qed.
 Print Assumptions C15_no_unmodelled.
 
-(** every extension the Pillow-format map yields has an entry in image_content_types;
-    that (extension, content type) pair is a row of default_content_types and the only
-    row for that extension; the content type is mapped to ImagePart *)
-Theorem C15_tables : forall fmt e, assoc fmt gen_ext_map = Some e ->
+(** every extension Image.ext can return -- a value of the Pillow-format map, or the
+    extension of a header rule (emf) -- has an entry in image_content_types; that
+    (extension, content type) pair is a row of default_content_types and the only row for
+    that extension; the content type is mapped to ImagePart *)
+Theorem C15_tables : forall e,
+  (exists fmt, assoc fmt gen_ext_map = Some e) \/ In e (map snd gen_ext_special) ->
   exists ct, assoc e gen_image_content_types = Some ct /\
              In (e, ct) gen_default_content_types /\
              (forall ct', In (e, ct') gen_default_content_types -> ct' = ct) /\
              In ct gen_imagepart_cts.
-Proof. exact (tables_ok_sound gen_ext_map gen_image_content_types gen_default_content_types
+Proof. exact (tables_sound_gen gen_ext_map gen_ext_special gen_image_content_types gen_default_content_types
                 gen_imagepart_cts (eq_refl true)). Qed.
 Print Assumptions C15_tables.
 
-(** the tables the model computes with are the regenerated ones *)
+(** the tables and rules the model computes with are the regenerated ones *)
 Theorem C15_tables_match :
   (forall k, assoc k gen_ext_map = assoc k ext_map) /\
   (forall k, assoc k gen_image_content_types = assoc k image_content_types) /\
   (forall ct, mem_str ct gen_imagepart_cts = ct_is_imagepart ct).
 Proof. exact (tables_match_sound gen_ext_map gen_image_content_types gen_imagepart_cts (eq_refl true)). Qed.
 Print Assumptions C15_tables_match.
+
+Theorem C15_rules_match : gen_ext_special = ext_special /\ gen_dpi_drop = dpi_drop_rules.
+Proof. exact (conj (eq_refl ext_special) (eq_refl dpi_drop_rules)). Qed.
+Print Assumptions C15_rules_match.
+
+(** the header rule: a blob Pillow calls WMF that carries ' EMF' at offset 40 is an
+    enhanced metafile and gets the extension emf; without those bytes it stays wmf *)
+Theorem C15_emf_by_header : forall b w h d x,
+  image_ext b (Meta (Some [87; 77; 70]%N) w h d x) =
+  Ok (if str_eqb (slice b 40 4) [32; 69; 77; 70]%N then [101; 109; 102]%N else [119; 109; 102]%N).
+Proof. exact emf_by_header. Qed.
+Print Assumptions C15_emf_by_header.
 
 (* ------------------------------------------------------------------ dpi *)
 
@@ -165,18 +179,39 @@ Print Assumptions C15_dpi_value.
 
 (* ------------------------------------------------------------------ native size *)
 
-(** the native size is the pixel size at the normalised dpi, rounded down to whole EMU *)
-Theorem C15_native : forall f w h d, 0 <= w -> 0 <= h ->
-  forall cx cy, native_size (Meta f w h d) = Ok (cx, cy) ->
-  exists hd vd, normalize_pil_dpi d = Ok (hd, vd) /\ 1 <= hd <= 2048 /\ 1 <= vd <= 2048 /\
+(** the native size is the pixel size at the normalised dpi, rounded down to whole EMU;
+    the dpi entry is the one Pillow reports except for a TIFF without XResolution *)
+Theorem C15_native : forall f w h d x, 0 <= w -> 0 <= h ->
+  forall cx cy, native_size (Meta f w h d x) = Ok (cx, cy) ->
+  exists hd vd, normalize_pil_dpi (eff_dpi f d x) = Ok (hd, vd) /\ 1 <= hd <= 2048 /\ 1 <= vd <= 2048 /\
     cx * hd <= 914400 * w < (cx + 1) * hd /\ cy * vd <= 914400 * h < (cy + 1) * vd.
 Proof. exact native_size_spec. Qed.
 Print Assumptions C15_native.
 
-Theorem C15_native_default : forall f w h,
-  native_size (Meta f w h PNoTuple) = Ok (12700 * w, 12700 * h).
+Theorem C15_native_default : forall f w h x,
+  native_size (Meta f w h PNoTuple x) = Ok (12700 * w, 12700 * h).
 Proof. exact native_size_default. Qed.
 Print Assumptions C15_native_default.
+
+(** a TIFF for which Pillow read no XResolution tag is sized at 72 dpi whatever
+    placeholder dpi Pillow reports; in every other case the reported entry is used *)
+Theorem C15_native_tiff_without_resolution : forall w h d,
+  native_size (Meta (Some [84; 73; 70; 70]%N) w h d false) = Ok (12700 * w, 12700 * h).
+Proof. exact native_size_tiff_nores. Qed.
+Print Assumptions C15_native_tiff_without_resolution.
+
+Theorem C15_dpi_entry_kept : forall f d x,
+  x = true \/ fmt_is f [84; 73; 70; 70]%N = false -> eff_dpi f d x = d.
+Proof. exact eff_dpi_kept. Qed.
+Print Assumptions C15_dpi_entry_kept.
+
+(** the implementation evaluates 914400 * px / dpi in binary64 and truncates; that is the
+    integer the model computes exactly (fl64 as in C15_fl64_premises) *)
+Theorem C15_native_float : forall px dpi,
+  0 <= px -> 914400 * px < 1099511627776 -> 1 <= dpi <= 2048 ->
+  Qfloor (fl64 (inject_Z (914400 * px) / inject_Z dpi)) = native_dim px dpi.
+Proof. exact native_float_exact. Qed.
+Print Assumptions C15_native_float.
 
 (* ------------------------------------------------------------------ scale *)
 
@@ -216,6 +251,36 @@ Theorem C15_scale : forall fl : Q -> Q,
 Proof. exact scale_one_given. Qed.
 Print Assumptions C15_scale.
 
+(** fl64 of model/Image.v (round to nearest even, 53-bit significand, unbounded exponent:
+    the function the runner computes with, validated bit-exactly against CPython floats by
+    the correspondence) meets those premises ... *)
+Theorem C15_fl64_premises :
+  (forall p q, (p == q)%Q -> (fl64 p == fl64 q)%Q) /\
+  (forall q, (Qabs (fl64 q - q) <= Qabs q * eps53)%Q) /\
+  (forall z, small z -> (fl64 (inject_Z z) == inject_Z z)%Q).
+Proof. exact fl64_premises. Qed.
+Print Assumptions C15_fl64_premises.
+
+(** ... so for it the aspect bound holds without premises *)
+Theorem C15_scale_fl64 : forall icx icy, small icx -> small icy ->
+  (forall x cy, x <> 0 -> truthy cy = false -> icx <> 0 -> small x ->
+     exists y, scale fl64 icx icy (Some x) cy = Ok (x, y) /\
+       (Qabs (inject_Z y * inject_Z icx - inject_Z x * inject_Z icy)
+        <= Qabs (inject_Z icx) * (1 # 2) + Qabs (inject_Z x * inject_Z icy) * (3 * eps53))%Q) /\
+  (forall y cx, y <> 0 -> truthy cx = false -> icy <> 0 -> small y ->
+     exists x, scale fl64 icx icy cx (Some y) = Ok (x, y) /\
+       (Qabs (inject_Z x * inject_Z icy - inject_Z y * inject_Z icx)
+        <= Qabs (inject_Z icy) * (1 # 2) + Qabs (inject_Z y * inject_Z icx) * (3 * eps53))%Q).
+Proof. exact scale_one_given_fl64. Qed.
+Print Assumptions C15_scale_fl64.
+
+(** a zero native dimension (not reachable from an image with pixels and dpi <= 2048, see
+    C15_native) makes the division fail: ZeroDivisionError *)
+Theorem C15_scale_zero_native : forall fl x cy icy, x <> 0 -> truthy cy = false ->
+  scale fl 0 icy (Some x) cy = Err OtherErr.
+Proof. exact (fun fl x cy icy Hx Hcy => scale_zero_native fl x cy Hx Hcy icy). Qed.
+Print Assumptions C15_scale_zero_native.
+
 (* ------------------------------------------------------------------ non-vacuity *)
 
 (** the empty store and a store shaped like the default template (a thumbnail image part
@@ -224,9 +289,9 @@ Example C15_ex_inv_empty : forall H, Inv H empty_state.
 Proof. exact inv_empty. Qed.
 
 Definition ex_png : image :=
-  mkImage [137; 80; 78; 71; 1]%N (Meta (Some [80; 78; 71]%N) 7 5 PNoTuple).
+  mkImage [137; 80; 78; 71; 1]%N (Meta (Some [80; 78; 71]%N) 7 5 PNoTuple false).
 Definition ex_jpg : image :=
-  mkImage [255; 216; 255; 2]%N (Meta (Some [74; 80; 69; 71]%N) 3 2 (PTuple (DQ (300 # 1)) (DQ (301 # 2)))).
+  mkImage [255; 216; 255; 2]%N (Meta (Some [74; 80; 69; 71]%N) 3 2 (PTuple (DQ (300 # 1)) (DQ (301 # 2))) false).
 Definition ex_ops : list op :=
   [OAddSlide; OImage 0 ex_png (UPicture None None); OAddSlide; OImage 1 ex_jpg (UPicture (Some 914400) None);
    OImage 1 ex_png (UPicture None (Some 0)); OReload; OImage 0 ex_png URelOnly; OImage 0 ex_jpg (UPicture (Some 3) (Some 4))].
@@ -272,9 +337,9 @@ Example C15_ex_dpi :
 Proof. vm_compute. repeat split. Qed.
 
 Example C15_ex_native :
-  native_size (Meta None 7 5 PNoTuple) = Ok (88900, 63500) /\
-  native_size (Meta None 3 2 (PTuple (DQ (300 # 1)) (DQ (301 # 2)))) = Ok (9144, 12192) /\
-  native_size (Meta None 1 1 (PTuple (DQ (2048 # 1)) (DQ 1))) = Ok (446, 914400).
+  native_size (Meta None 7 5 PNoTuple false) = Ok (88900, 63500) /\
+  native_size (Meta None 3 2 (PTuple (DQ (300 # 1)) (DQ (301 # 2))) false) = Ok (9144, 12192) /\
+  native_size (Meta None 1 1 (PTuple (DQ (2048 # 1)) (DQ 1)) false) = Ok (446, 914400).
 Proof. vm_compute. repeat split. Qed.
 
 Example C15_ex_scale :
@@ -292,3 +357,19 @@ Example C15_ex_fl_premises :
   (forall q, (Qabs ((fun x => x) q - q) <= Qabs q * eps53)%Q) /\
   (forall z, small z -> ((fun x : Q => x) (inject_Z z) == inject_Z z)%Q).
 Proof. exact fl_hyps_consistent. Qed.
+
+(** the two repaired behaviours: a TIFF for which Pillow read no XResolution and reports the
+    placeholder (1, 1) is sized at 72 dpi, one with the tag keeps its dpi; a blob Pillow
+    calls WMF with the EMF signature at offset 40 is stored as emf / image/x-emf, a short or
+    different blob as wmf / image/x-wmf *)
+Definition ex_emf_blob : blob := repeat 1%N 40 ++ [32; 69; 77; 70; 0; 0]%N.
+Example C15_ex_repaired :
+  native_size (Meta (Some [84; 73; 70; 70]%N) 64 48 (PTuple (DQ 1) (DQ 1)) false) = Ok (812800, 609600) /\
+  native_size (Meta (Some [84; 73; 70; 70]%N) 64 48 (PTuple (DQ (300 # 1)) (DQ (300 # 1))) true) = Ok (195072, 146304) /\
+  native_size (Meta (Some [80; 78; 71]%N) 64 48 (PTuple (DQ 1) (DQ 1)) false) = Ok (58521600, 43891200) /\
+  image_ext ex_emf_blob (Meta (Some [87; 77; 70]%N) 32 32 PNoTuple false) = Ok [101; 109; 102]%N /\
+  ext_content_type [101; 109; 102]%N = Ok [105; 109; 97; 103; 101; 47; 120; 45; 101; 109; 102]%N /\
+  image_ext [215; 205; 198; 154]%N (Meta (Some [87; 77; 70]%N) 32 32 PNoTuple false) = Ok [119; 109; 102]%N /\
+  ext_content_type [119; 109; 102]%N = Ok [105; 109; 97; 103; 101; 47; 120; 45; 119; 109; 102]%N /\
+  image_ext ex_emf_blob (Meta (Some [80; 78; 71]%N) 32 32 PNoTuple false) = Ok [112; 110; 103]%N.
+Proof. vm_compute. repeat split. Qed.
